@@ -4,7 +4,12 @@
    marginal likelihood for ALL q(u), the maximum over S, and the natural-gradient fixed point.
    They are labelled tests of the correspondence driver.  What is proved about the bound:
    the optimal q(u) is the exact posterior over u (precision and natural mean parameter), KL >= 0
-   in the whitened diagonal case and the resulting bound along the KL term (_partial). *)
+   in the whitened diagonal case and the resulting bound along the KL term (_partial).
+   GROWN (end of file): KL >= 0 with equality case for diagonal q against a diagonal prior
+   ([c15_kl_nonneg_meanfield], [c15_kl_zero_iff_meanfield]), KL >= 0 for the model's own expression
+   with determinants for every Cholesky-factored q(u) and prior ([c15_kl_nonneg]) and the bound
+   ELBO <= likelihood term at that generality ([c15_elbo_le_likelihood_term]); [expect_poly] is
+   C13's moment functional ([c15_expect_poly_is_c13_normal_expect]). *)
 From Coq Require Import Reals Arith List.
 From GPV Require Import Base.LinAlg Base.Exec Base.Expr Models.C02_mll Proofs.C02_mll
   Models.C15_elbo Proofs.C15_elbo Proofs.C15_real Proofs.C15_gap.
@@ -244,3 +249,60 @@ Example ex_c15_cholesky_hypothesis :
   forall n i, (i < n)%nat -> (0 < @mmul RF n (@mI RF) (@mI RF) i i)%R.
 Proof. exact ex_kl2_chol_hyp. Qed.
 Print Assumptions ex_c15_cholesky_hypothesis.
+
+(* ======================================================================================== *)
+(* FULL statements for the model's own KL expression (Proofs/C15_kl_det.v; Base/Det.v)       *)
+From GPV Require Import Base.Det Proofs.C10_det Proofs.C15_kl_det.
+
+(* KL(q(u) || p(u)) >= 0 for twice the expression the model prints,
+     [kl2_model] = kl_unwh_alg n Kinv S mq mz - n + ln det Kzz - ln det S      ([det]: Base/Exec.v),
+   for EVERY Gaussian q(u) = N(mq, S) and prior N(mz, Kzz) with Cholesky-factored covariances
+   (S = Lq Lq^T, Kzz = L L^T, factors lower triangular with positive diagonal), Kinv ANY inverse of
+   Kzz, every size; both determinants are positive, so the logarithms are meaningful *)
+Theorem c15_kl_nonneg :
+  forall n (Kzz Kinv S mq mz L Li Lq : @M RF),
+    @tri_lower RF n Lq -> @tri_lower RF n L ->
+    (forall i, (i < n)%nat -> (0 < Lq i i)%R) -> (forall i, (i < n)%nat -> (0 < L i i)%R) ->
+    @is_inverse RF n L Li ->
+    @meq RF n n (@mmul RF n Lq (@mT RF Lq)) S -> @meq RF n n (@mmul RF n L (@mT RF L)) Kzz ->
+    @is_inverse RF n Kzz Kinv ->
+    (0 < @det RF n S)%R /\ (0 < @det RF n Kzz)%R /\ (0 <= kl2_model n Kzz Kinv S mq mz)%R.
+Proof. exact kl2_model_nonneg. Qed.
+Print Assumptions c15_kl_nonneg.
+
+(* the bound along the KL term at that generality: for every such q(u) the objective never exceeds
+   (1/B) sum ell + (1/N) log prior - added.  (The bound N*ELBO <= exact log marginal likelihood
+   remains a labelled test, see the header.) *)
+Theorem c15_elbo_le_likelihood_term :
+  forall n (Kzz Kinv S mq mz L Li Lq : @M RF) (ell nb beta nd lp added : R),
+    @tri_lower RF n Lq -> @tri_lower RF n L ->
+    (forall i, (i < n)%nat -> (0 < Lq i i)%R) -> (forall i, (i < n)%nat -> (0 < L i i)%R) ->
+    @is_inverse RF n L Li ->
+    @meq RF n n (@mmul RF n Lq (@mT RF Lq)) S -> @meq RF n n (@mmul RF n L (@mT RF L)) Kzz ->
+    @is_inverse RF n Kzz Kinv ->
+    (0 < beta)%R -> (0 < nd)%R ->
+    (@elbo_value RF ell nb (/ 2 * kl2_model n Kzz Kinv S mq mz) beta nd lp added
+     <= ell / nb + lp / nd - added)%R.
+Proof. exact elbo_le_likelihood_term_full. Qed.
+Print Assumptions c15_elbo_le_likelihood_term.
+
+(* the mean-field sum [kl2_diag] of [c15_kl_nonneg_meanfield] IS that model expression on diagonal
+   matrices (determinants included: det diag(d) = prod d) *)
+Theorem c15_kl_meanfield_is_kl2_model :
+  forall n (sq sp : nat -> R) (mq mz : @M RF),
+    (forall i, (i < n)%nat -> (0 < sq i)%R) -> (forall i, (i < n)%nat -> (0 < sp i)%R) ->
+    kl2_model n (@mdiag RF sp) (@mdiag RF (fun i => (/ sp i)%R)) (@mdiag RF sq) mq mz
+    = kl2_diag n (fun i => mq i O) sq (fun i => mz i O) sp.
+Proof. exact kl2_diag_is_kl2_model. Qed.
+Print Assumptions c15_kl_meanfield_is_kl2_model.
+
+(* non-vacuity of the hypotheses of [c15_kl_nonneg] / [c15_elbo_le_likelihood_term] *)
+Example ex_c15_kl_nonneg_hypotheses :
+  exists (Kzz Kinv S L Li Lq : @M RF),
+    @tri_lower RF 2 Lq /\ @tri_lower RF 2 L /\
+    (forall i, (i < 2)%nat -> (0 < Lq i i)%R) /\ (forall i, (i < 2)%nat -> (0 < L i i)%R) /\
+    @is_inverse RF 2 L Li /\
+    @meq RF 2 2 (@mmul RF 2 Lq (@mT RF Lq)) S /\ @meq RF 2 2 (@mmul RF 2 L (@mT RF L)) Kzz /\
+    @is_inverse RF 2 Kzz Kinv.
+Proof. exact ex_kl2_model_hyps. Qed.
+Print Assumptions ex_c15_kl_nonneg_hypotheses.
